@@ -9,18 +9,22 @@ use std::sync::Arc;
 pub enum CmpKind {
     Bytewise,
     Reverse,
+    /// shorter keys first, keys of equal length bytewise (neither the bytewise order nor its reverse)
+    LenFirst,
 }
 impl CmpKind {
     pub fn name(&self) -> &'static str {
         match self {
             CmpKind::Bytewise => "bytewise",
             CmpKind::Reverse => "reverse",
+            CmpKind::LenFirst => "lenfirst",
         }
     }
     pub fn less(&self, a: &[u8], b: &[u8]) -> bool {
         match self {
             CmpKind::Bytewise => a < b,
             CmpKind::Reverse => b < a,
+            CmpKind::LenFirst => (a.len(), a) < (b.len(), b),
         }
     }
 }
@@ -81,6 +85,7 @@ impl WCfg {
         o.cmp = match self.cmp {
             CmpKind::Bytewise => Arc::new(Box::new(DefaultCmp)),
             CmpKind::Reverse => Arc::new(Box::new(ReverseCmp)),
+            CmpKind::LenFirst => Arc::new(Box::new(LenFirstCmp)),
         };
         o.block_size = self.block_size;
         o.block_restart_interval = self.restart;
